@@ -53,12 +53,17 @@ pub fn check_response_buffer_size(config: &Config) -> anyhow::Result<()> {
     /// Length of compact IPv6 peer
     const MAX_PEER_LEN: usize = 18;
 
-    let max_response_len = RESPONSE_HEADER_A.len()
-        + RESPONSE_HEADER_B.len()
-        + RESPONSE_HEADER_C.len()
-        + MAX_ANNOUNCE_RESPONSE_BASE_LEN
-        + config.protocol.max_peers.saturating_mul(MAX_PEER_LEN)
-        + 2;
+    let max_response_len = config
+        .protocol
+        .max_peers
+        .saturating_mul(MAX_PEER_LEN)
+        .saturating_add(
+            RESPONSE_HEADER_A.len()
+                + RESPONSE_HEADER_B.len()
+                + RESPONSE_HEADER_C.len()
+                + MAX_ANNOUNCE_RESPONSE_BASE_LEN
+                + 2,
+        );
 
     if max_response_len > RESPONSE_BUFFER_SIZE {
         return Err(anyhow::anyhow!(
